@@ -850,17 +850,22 @@ class Executor:
             v = self.read_place(st, frame, rv[1])
             if not isinstance(v, EnumV):
                 raise Abort('unmodelled', 'discriminant of %r' % (v,))
+            # the discriminant has the type of the destination local (isize by default, i8 for Ordering, ...)
+            w, sg = INT_TYPES.get(strip_path(dest_ty), (64, True)) if dest_ty else (64, True)
+
+            def fit(e64):
+                return e64 if w == 64 else z3.Extract(w - 1, 0, e64)
             if isinstance(v.discr, int):
-                return Int(z3.BitVecVal(self.variant_discr(v.ty, v.discr), 64), True)
+                return Int(z3.BitVecVal(self.variant_discr(v.ty, v.discr), w), sg)
             b = self.enum_base(v.ty)
             tbl = STD_ENUM_DISCR.get(b) or self.src.enum_discr.get(b)
             if tbl:
                 vs = self.enum_variants(v.ty)
-                e = z3.BitVecVal(0, 64)
+                e = z3.BitVecVal(0, w)
                 for i, name in enumerate(vs):
-                    e = z3.If(v.discr == i, z3.BitVecVal(self.variant_discr(v.ty, i), 64), e)
-                return Int(e, True)
-            return Int(v.discr, True)
+                    e = z3.If(v.discr == i, z3.BitVecVal(self.variant_discr(v.ty, i), w), e)
+                return Int(e, sg)
+            return Int(fit(v.discr), sg)
         if k == 'len':
             v = self.read_place(st, frame, rv[1])
             return self.vec_len(v)
